@@ -15,7 +15,7 @@ from . import expr_model as M
 ONLINE_OWNER = [
     ("M1 ", "C01"), ("leaf-completes-twice", "C01"), ("leaf-started-twice", "C01"),
     ("M2 ", "C02"), ("M3 ", "C02"), ("ledger ", "C02"), ("leaf-op-destroyed-while-running", "C02"),
-    ("M4 ", "C04"), ("driver-step-limit", "C01"),
+    ("M4 ", "C04"), ("driver-step-limit", "C01"), ("M13 ", "C20"),
 ]
 
 
@@ -268,6 +268,9 @@ class ExprRun:
         self.alias = alias or {}
         self.scn_fn = scn_fn or scenarios_for
         self.progs = programs if programs is not None else gen_expr.generate(seed, n_programs, max_depth, max_leaves, ops)
+        if core.VARIANTS[variant][1] == "17":
+            # stop_if_requested() is only usable with coroutine support (its header does not compile in C++17)
+            self.progs = [p for p in self.progs if not gen_expr.has_op(p[1], ("stop_if_requested",))]
         self.per_tu = per_tu
         self.name = name
         self.dropped = []
